@@ -3,7 +3,7 @@
 From Coq Require Import List ZArith.
 Require Import Avro.Model.Base Avro.Model.Prim Avro.Model.Schema Avro.Model.GoType
                Avro.Model.Spec Avro.Model.Codec Avro.Model.Denote.
-Require Import Avro.Proofs.Wire Avro.Proofs.BuildP Avro.Proofs.ReadP.
+Require Import Avro.Proofs.Wire Avro.Proofs.BuildP Avro.Proofs.ReadP Avro.Proofs.ProjectP.
 Import ListNotations.
 Open Scope Z_scope.
 
@@ -26,6 +26,27 @@ Proof.
   - eapply skip_exact; eauto.
 Qed.
 Print Assumptions C04_skip_equals_read.
+
+(* Projection, at the level of the decoded datum (R lifts it to bytes): take the
+   record codec for a full target and the one for the same target with some
+   fields removed ([keep j = false]: schema fields that targeted struct field j
+   are now skipped).  Decoding the same record into the same initial struct:
+   every kept field gets exactly the value it gets in the full target, and every
+   removed field keeps its initial (zero) value. *)
+Theorem C04_projection_drop : forall keep fs ds vs0 vsA',
+  apply_fields fs ds vs0 = Some vsA' ->
+  exists vsB', apply_fields (map (drop_target keep) fs) ds vs0 = Some vsB' /\
+    length vsB' = length vs0 /\
+    (forall j, keep j = true -> nth j vsB' VBad = nth j vsA' VBad) /\
+    (forall j, keep j = false -> nth j vsB' VBad = nth j vs0 VBad).
+Proof. intros keep fs ds vs0 vsA' H. eapply (projection_drop keep fs ds vs0 vs0 vs0 vsA'); auto. Qed.
+Print Assumptions C04_projection_drop.
+
+(* fields added to the target (no schema field targets them) are left as they were *)
+Theorem C04_added_fields_untouched : forall fs ds vs vs' j,
+  (forall c, ~ In (c, Some j) fs) -> apply_fields fs ds vs = Some vs' -> nth j vs' VBad = nth j vs VBad.
+Proof. exact untargeted_unchanged. Qed.
+Print Assumptions C04_added_fields_untouched.
 
 (* non-vacuity: a record with a size-prefixed multi-block array followed by a
    further field, decoded, projected onto a struct lacking the array, and skipped *)
